@@ -326,3 +326,8 @@ func (r *Result) OutcomeList() []string {
 	sort.Strings(o)
 	return o
 }
+
+// RunOnce executes body exactly once under the default schedule (no exploration).
+func RunOnce(name string, maxSteps int, body func(x *Exec)) *Result {
+	return Explore(Config{Name: name, MaxSteps: maxSteps, Replay: []int{}, Delay: true}, body)
+}
